@@ -296,8 +296,7 @@ func suiteDocument(r *Rng, n int, thorough bool, o *Out) {
 			}
 		}
 		// errors may also sit on a document that has data and included resources
-		_, otherData := doc.Data.(int)
-		if len(doc.Errors) == 0 && !otherData && r.chance(1, 7) {
+		if len(doc.Errors) == 0 && r.chance(1, 7) {
 			doc.Errors = genErrors(r)
 			o.stat("data.errors-with-data")
 		}
@@ -371,7 +370,7 @@ func suiteDocument(r *Rng, n int, thorough bool, o *Out) {
 		}
 		if err != nil {
 			pv := "ok"
-			if _, isInt := doc.Data.(int); !isInt {
+			if _, isInt := doc.Data.(int); !isInt || len(doc.Errors) > 0 {
 				pv = "FAIL:MarshalDocument failed: " + err.Error()
 			}
 			o.emit(op, "err", pv)
